@@ -7,9 +7,11 @@ import PyrollModel.HookReg
   A wrapper called on an instance it is already executing on (`id(instance) in _active_instances`) gets
   `cycle=True` and, following the documented protocol, returns `None`.  Otherwise it is marked active for this
   instance, runs to its `yield`, receives `hook.get_result(instance)` of the hook of `type(instance)` – the WHOLE
-  chain again, in which it (and every wrapper entered before it) is now skipped as cycled – and returns its result;
-  a wrapper that has received the inner result ends the chain even when it returns `None`; a wrapper returning
-  before its `yield` declines and the chain goes on.
+  chain again, in which it (and every wrapper entered before it) is now skipped as cycled – and returns its result.
+  `get_result` treats a wrapper like every other function: when the wrapper returns `None` (before its `yield`:
+  it declines; after it: it maps the inner value to `None`) the chain goes on with the next function – the mark
+  of the wrapper is cleared by then, so a later wrapper evaluates a chain in which the earlier one runs again
+  (the documented protocol excludes this point: a wrapper that wraps returns a value; see `coop`).
 
   The implementations are data (`Body`).  One structural recursion on `fuel` (python's recursion limit is not
   reached by the cases of the harness; fuel exhaustion is visible as the event `fuelOut`).
@@ -57,8 +59,10 @@ def ev (chainOf : Cls → List HF) :
         | b =>
           -- marked active; runs to the yield; the chain of type(instance) is evaluated again from its start
           let r := ev chainOf fuel full full i depth ((f.id, i) :: act) (tr ++ [.enter f.id])
-          -- its result is the result of the chain (also when it is None)
-          (wapply b r.1, r.2 ++ [.exit f.id])
+          -- first result that is not None wins; a wrapper answering None is passed over like a plain function
+          match wapply b r.1 with
+          | some x => (some x, r.2 ++ [.exit f.id])
+          | none => ev chainOf fuel full rest i depth act (r.2 ++ [.exit f.id])
     else
       match f.body with
       | .ret (some x) => (some x, tr ++ [.call f.id])
@@ -97,6 +101,28 @@ def skipEv (h : HF) : Ev := if h.body = .decline then .decl h.id else .cyc h.id
 def foldW (ws : List HF) (v : Option Nat) : Option Nat :=
   (ws.filter fun w => w.body != .decline).foldr (fun w acc => wapply w.body acc) v
 
+/-- the documented wrapper protocol as far as results are concerned: every wrapper that wraps answers a value
+    (not `None`) for the value it receives from the rest of the chain -/
+def coop (v : Option Nat) : List HF → Bool
+  | [] => true
+  | w :: ws => coop v ws && (decide (w.body = .decline) || (wapply w.body (foldW ws v)).isSome)
+
+/-- the wrappers entered / left and the plain implementations called, as recorded -/
+def enters : List Ev → List Nat
+  | [] => []
+  | .enter i :: tr => i :: enters tr
+  | _ :: tr => enters tr
+
+def exits : List Ev → List Nat
+  | [] => []
+  | .exit i :: tr => i :: exits tr
+  | _ :: tr => exits tr
+
+def calls : List Ev → List Nat
+  | [] => []
+  | .call i :: tr => i :: calls tr
+  | _ :: tr => calls tr
+
 /-- value and complete trace of the evaluation of the chain `pre ++ ws ++ ps` when the non-declining wrappers of
     `pre` are already active -/
 def specM (ps : List HF) : List HF → List HF → Option Nat × List Ev
@@ -112,5 +138,12 @@ def needM (ps : List HF) : List HF → List HF → Nat
   | pre, w :: ws =>
     if w.body = .decline then 1 + needM ps (pre ++ [w]) ws
     else 1 + (pre.length + 1) + needM ps (pre ++ [w]) ws
+
+/-! ### the chain of a class split into its wrappers and its plain implementations -/
+
+def wrappersOf (l : List HF) : List HF := l.filter (·.wrapper)
+def plainsOf (l : List HF) : List HF := l.filter fun f => !f.wrapper
+
+def noDelegate (l : List HF) : Bool := l.all fun p => match p.body with | .delegate _ => false | _ => true
 
 end Hooks
